@@ -84,21 +84,6 @@ Definition reported_uidnext (o : out) : option (N * N) :=
   | _ => None
   end.
 
-Lemma boxes_select_ro_or_rw s nm ro st i b :
-  lookup i (boxes st) = Some b ->
-  exists b', lookup i (boxes (fst (select_new s nm ro st))) = Some b' /\
-             b_max b' = b_max b /\ b_log b' = b_log b /\
-             map m_uid (b_msgs b') = map m_uid (b_msgs b).
-Proof.
-  intro Hl. unfold select_new. destruct (find_box st nm) as [[j bj]|]; [|eauto].
-  destruct ro; cbn [fst boxes add_sel]; [eauto|].
-  unfold map_msgs. destruct (lookup j (boxes st)) as [x|] eqn:Hj; [|eauto].
-  cbn [boxes set_boxes]. destruct (N.eq_dec i j) as [->|Hne].
-  - erewrite lookup_replace_eq by eauto. eexists. split; [reflexivity|].
-    rewrite Hj in Hl. inversion Hl; subst. cbn [b_max b_log b_msgs]. rewrite map_map. auto.
-  - rewrite lookup_replace_neq by exact Hne. eauto.
-Qed.
-
 (* UIDNEXT reported by SELECT/EXAMINE/STATUS is above every existing UID and
    every UID ever assigned in that mailbox, and every UID assigned there
    afterwards is at least that number. *)
@@ -121,7 +106,8 @@ Proof.
     - (* Select *)
       unfold select_new in Hrep.
       destruct (find_box (drop_sel s st) nm) as [[j bj]|] eqn:Hf; [|discriminate].
-      destruct ro; cbn [snd reported_uidnext] in Hrep; inversion Hrep; subst;
+      destruct (ro || box_ro (drop_sel s st) j); cbn [snd reported_uidnext] in Hrep;
+        inversion Hrep; subst;
         exists bj; split; try reflexivity; exact (find_box_lookup_u _ _ _ _ Hf).
     - (* Status *)
       inversion Hrep; subst. eexists. split; [|reflexivity].
@@ -148,7 +134,7 @@ Proof.
   assert (Hd : forall b, names (fst (do_sync s sl b st)) = names st).
   { intro b. unfold do_sync. destruct (sync_sel sl b). reflexivity. }
   assert (H : names (fst (match find_box st (s_name sl) with
-                          | Some (i, b) => if i =? s_bid sl then do_sync s sl b st else (st, PStale)
+                          | Some (i, b) => if i =? s_bid sl then do_sync s sl b st else (drop_sel s st, PBye)
                           | None => (drop_sel s st, PBye)
                           end)) = names st).
   { destruct (find_box st (s_name sl)) as [[i b]|]; [|reflexivity].
@@ -169,25 +155,30 @@ Qed.
 
 (* RENAME carries the mailbox object: counter, log, messages and identity
    (UIDVALIDITY) are reachable under the new name, unchanged; renaming INBOX
-   leaves a brand-new empty INBOX with a fresh identity. *)
-Theorem rename_carries st s a b ch i bx :
-  full st -> b <> INBOX -> find_box st a = Some (i, bx) -> lookup b (names st) = None ->
-  let st' := fst (step st (Rename s a b) ch) in
+   leaves a brand-new empty INBOX with a fresh identity.  (Stated for a name
+   without an existing inferior; an inferior is carried the same way by the
+   second [rename_box] of [rename_tree].) *)
+Lemma name_sub_spec p c : name_sub p = Some c -> (1 <= p <= 3) /\ c = p + 4.
+Proof.
+  unfold name_sub. destruct (N.leb_spec 1 p) as [H1|H1], (N.leb_spec p 3) as [H3|H3];
+    cbn [andb]; try discriminate.
+  intro E. inversion E. lia.
+Qed.
+
+Lemma rename_box_find st a b i bx :
+  Inv_rec st -> b <> INBOX -> find_box st a = Some (i, bx) -> lookup b (names st) = None ->
+  let st' := rename_box a b st in
   find_box st' b = Some (i, bx) /\
   (a <> INBOX -> find_box st' a = None) /\
   (a = INBOX -> find_box st' INBOX = Some (next_bid st, empty_box (cfg_base st)) /\
                 next_bid st <> i).
 Proof.
-  intros [_ I] Hb Hf Hnb st'. subst st'. cbn [step].
-  destruct (N.eqb_spec b INBOX) as [|_]; [contradiction|].
+  intros I Hb Hf Hnb st'. subst st'.
   assert (Ha : lookup a (names st) = Some i).
   { unfold find_box in Hf. destruct (lookup a (names st)) as [j|]; [|discriminate].
     destruct (lookup j (boxes st)); [|discriminate]. inversion Hf; subst. reflexivity. }
   pose proof (find_box_lookup_u _ _ _ _ Hf) as Hi.
-  rewrite Ha, Hnb.
-  destruct (post_sync s None (rename_box a b st)) as [st1 p] eqn:E. cbn [fst].
-  replace st1 with (fst (post_sync s None (rename_box a b st))) by (rewrite E; reflexivity).
-  rewrite !find_box_post_sync. unfold rename_box. rewrite Ha.
+  unfold rename_box. rewrite Ha.
   assert (Hfresh : lookup (next_bid st) (boxes st) = None).
   { apply notin_lookup_None. intro Hin. apply in_map_iff in Hin as ([j x] & Ej & Hx).
     cbn [fst] in Ej. subst j. pose proof (ir_box_lt _ I _ _ Hx). lia. }
@@ -203,6 +194,114 @@ Proof.
       reflexivity.
     + rewrite lookup_app, lookup_remove_eq. cbn [lookup].
       destruct (N.eqb_spec b a) as [->|_]; [congruence|reflexivity].
+Qed.
+
+Theorem rename_carries st s a b ch i bx :
+  full st -> b <> INBOX -> find_box st a = Some (i, bx) -> in_tree st b = false ->
+  (forall ca, name_sub a = Some ca -> has_name st ca = false) ->
+  let st' := fst (step st (Rename s a b) ch) in
+  find_box st' b = Some (i, bx) /\
+  (a <> INBOX -> find_box st' a = None) /\
+  (a = INBOX -> find_box st' INBOX = Some (next_bid st, empty_box (cfg_base st)) /\
+                next_bid st <> i).
+Proof.
+  intros [_ I] Hb Hf Htb Hnosub st'. subst st'. cbn [step].
+  destruct (N.eqb_spec b INBOX) as [|_]; [contradiction|].
+  assert (Hta : in_tree st a = true).
+  { unfold in_tree, has_name, find_box in *. destruct (lookup a (names st)); [reflexivity|discriminate]. }
+  assert (Hnb : lookup b (names st) = None).
+  { unfold in_tree, has_name in Htb. destruct (lookup b (names st)); [discriminate|reflexivity]. }
+  rewrite Hta, Htb. cbn [andb negb].
+  assert (Et : rename_tree a b st = rename_box a b st).
+  { unfold rename_tree. destruct (name_sub a) as [ca|] eqn:Ea; [|reflexivity].
+    destruct (name_sub b) as [cb|] eqn:Eb; [|reflexivity].
+    specialize (Hnosub ca eq_refl). unfold rename_box at 1.
+    assert (Hc : lookup ca (names (rename_box a b st)) = None).
+    { unfold has_name in Hnosub. destruct (lookup ca (names st)) eqn:Hca; [discriminate|].
+      assert (Hca_ne : ca <> b).
+      { destruct (name_sub_spec _ _ Ea) as [_ ->]. destruct (name_sub_spec _ _ Eb) as [Hb3 _]. lia. }
+      unfold rename_box. destruct (lookup a (names st)) as [ia|]; [|exact Hca].
+      destruct (a =? INBOX); cbn [names set_names].
+      - rewrite lookup_app. destruct (N.eq_dec ca INBOX) as [->|Hn0].
+        + destruct (name_sub_spec _ _ Ea) as [_ E0]. unfold INBOX in E0. lia.
+        + rewrite lookup_replace_neq by exact Hn0. rewrite Hca. cbn [lookup].
+          destruct (N.eqb_spec b ca); [congruence|reflexivity].
+      - rewrite lookup_app, (lookup_remove_none _ _ _ Hca). cbn [lookup].
+        destruct (N.eqb_spec b ca); [congruence|reflexivity]. }
+    rewrite Hc. reflexivity. }
+  match goal with |- context [if ?c then _ else _] => destruct c end; cbn [fst].
+  - rewrite Et. apply rename_box_find; assumption.
+  - destruct (post_sync s None (rename_tree a b st)) as [st1 p] eqn:E. cbn [fst].
+    replace st1 with (fst (post_sync s None (rename_tree a b st))) by (rewrite E; reflexivity).
+    rewrite !find_box_post_sync. rewrite Et. apply rename_box_find; assumption.
+Qed.
+
+(* ----------------------------------------------------- DELETE, re-CREATE *)
+Lemma static_post_sync s h st :
+  next_bid (fst (post_sync s h st)) = next_bid st /\ cfg_base (fst (post_sync s h st)) = cfg_base st.
+Proof.
+  unfold post_sync. destruct (lookup s (sess st)) as [sl|]; [|auto].
+  assert (Hd : forall b, next_bid (fst (do_sync s sl b st)) = next_bid st /\
+                         cfg_base (fst (do_sync s sl b st)) = cfg_base st).
+  { intro b. unfold do_sync. destruct (sync_sel sl b). auto. }
+  assert (H : next_bid (fst (match find_box st (s_name sl) with
+                        | Some (i, b) => if i =? s_bid sl then do_sync s sl b st
+                                         else (drop_sel s st, PBye)
+                        | None => (drop_sel s st, PBye)
+                        end)) = next_bid st /\
+              cfg_base (fst (match find_box st (s_name sl) with
+                        | Some (i, b) => if i =? s_bid sl then do_sync s sl b st
+                                         else (drop_sel s st, PBye)
+                        | None => (drop_sel s st, PBye)
+                        end)) = cfg_base st).
+  { destruct (find_box st (s_name sl)) as [[i b]|]; [|auto].
+    destruct (i =? s_bid sl); [apply Hd|auto]. }
+  destruct h as [i|]; [|exact H]. destruct (i =? s_bid sl); [|exact H].
+  destruct (lookup i (boxes st)); [apply Hd|exact H].
+Qed.
+
+(* A deleted name denotes nothing; creating it again gives a brand-new
+   mailbox: an identity different from every mailbox that ever existed (hence
+   a fresh UIDVALIDITY draw), an empty log and the base counter - UIDs
+   restart, under another identity.  Every mailbox object that existed keeps
+   its identity and contents: the theorems above are per identity, so "never
+   reused" reads: never within one (incarnation of a name, UIDVALIDITY). *)
+Theorem recreate_is_fresh st s s' nm ch ch' i :
+  full st -> nm <> INBOX -> lookup nm (names st) = Some i ->
+  let st1 := fst (step st (Delete s nm) ch) in
+  let st2 := fst (step st1 (Create s' nm) ch') in
+  find_box st1 nm = None /\
+  find_box st2 nm = Some (next_bid st, empty_box (cfg_base st)) /\
+  (forall j b, In (j, b) (boxes st) -> j <> next_bid st /\ lookup j (boxes st2) = lookup j (boxes st)).
+Proof.
+  intros [_ I] Hn Hl st1 st2.
+  assert (Hfresh : lookup (next_bid st) (boxes st) = None).
+  { apply notin_lookup_None. intro Hin. apply in_map_iff in Hin as ([j x] & Ej & Hx).
+    cbn [fst] in Ej. subst j. pose proof (ir_box_lt _ I _ _ Hx). lia. }
+  assert (E1 : names st1 = remove nm (names st) /\ boxes st1 = boxes st /\
+               next_bid st1 = next_bid st /\ cfg_base st1 = cfg_base st).
+  { subst st1. cbn [step]. destruct (N.eqb_spec nm INBOX); [contradiction|]. rewrite Hl.
+    destruct (post_sync s None (set_names (remove nm (names st)) st)) as [x p] eqn:E. cbn [fst].
+    replace x with (fst (post_sync s None (set_names (remove nm (names st)) st)))
+      by (rewrite E; reflexivity).
+    rewrite names_post_sync, boxes_post_sync.
+    destruct (static_post_sync s None (set_names (remove nm (names st)) st)) as [-> ->]. auto. }
+  destruct E1 as (En1 & Eb1 & Enb1 & Ecb1).
+  assert (Hnone : lookup nm (names st1) = None) by (rewrite En1; apply lookup_remove_eq).
+  split; [unfold find_box; rewrite Hnone; reflexivity|].
+  assert (E2 : names st2 = names st1 ++ [(nm, next_bid st)] /\
+               boxes st2 = boxes st ++ [(next_bid st, empty_box (cfg_base st))]).
+  { subst st2. cbn [step]. destruct (N.eqb_spec nm INBOX); [contradiction|]. rewrite Hnone.
+    destruct (post_sync s' None (create_box nm st1)) as [x p] eqn:E. cbn [fst].
+    replace x with (fst (post_sync s' None (create_box nm st1))) by (rewrite E; reflexivity).
+    rewrite names_post_sync, boxes_post_sync. cbn [names boxes create_box].
+    rewrite Eb1, Enb1, Ecb1. auto. }
+  destruct E2 as (En2 & Eb2). split.
+  - unfold find_box. rewrite En2, lookup_app, Hnone. cbn [lookup]. rewrite N.eqb_refl.
+    rewrite Eb2, lookup_app, Hfresh. cbn [lookup]. rewrite N.eqb_refl. reflexivity.
+  - intros j b Hin. pose proof (ir_box_lt _ I _ _ Hin) as Hlt. split; [lia|].
+    rewrite Eb2, lookup_app. destruct (lookup j (boxes st)) eqn:Ej; [reflexivity|].
+    exfalso. apply In_lookup in Hin; [congruence|exact (ir_bkeys _ I)].
 Qed.
 
 (* ------------------------------------------- printed UID sets, expanded *)
@@ -356,6 +455,7 @@ Theorem appenduid_truth st s nm ms ch st' i bytes p b :
 Proof.
   intros F Hne Hstep Hl. cbn [step] in Hstep.
   destruct (find_box st nm) as [[j bj]|] eqn:Hf; [|discriminate].
+  destruct (box_ro st j); [discriminate|].
   destruct (pick_ok st s j (c_pick ch)); [|discriminate].
   destruct (append_loop j (c_pick ch) ms st) as [st1 us] eqn:El.
   destruct (post_sync s (Some j) st1) as [st2 p2] eqn:Ep.
@@ -499,7 +599,7 @@ Proof.
             resolve st s = RBox sl i bi /\
             find_box st nm <> None /\
             exists jj, (exists bj, find_box st nm = Some (jj, bj)) /\
-            let us := filter (in_set set) (s_view sl) in
+            let us := select_view set (s_view sl) in
             let r := copy_loop mv i jj (c_pick ch) us st in
             exists p',
               (fst (resync s (fst r)), OCopy (match snd r with
@@ -509,27 +609,28 @@ Proof.
                                               end) p')
               = (st', OCopy (Some (j, a, b)) p)).
   { destruct mv; cbn [step] in Hstep;
-      destruct (resolve st s) as [| | |sl i bi] eqn:R; try discriminate;
+      destruct (resolve st s) as [| |sl i bi] eqn:R; try discriminate;
       destruct (find_box st nm) as [[jj bj]|] eqn:Hf; try discriminate.
-    - destruct (s_ro sl); [discriminate|].
+    - destruct (s_ro sl || box_ro st jj); [discriminate|].
       destruct (pick_ok st s jj (c_pick ch)); [|discriminate].
       exists sl, i, bi. split; [reflexivity|]. split; [discriminate|]. exists jj. split; [eauto|].
-      cbn zeta. destruct (copy_loop true i jj (c_pick ch) (filter (in_set set) (s_view sl)) st)
+      cbn zeta. destruct (copy_loop true i jj (c_pick ch) (select_view set (s_view sl)) st)
         as [st1 ps]. cbn [fst snd]. destruct (resync s st1) as [st2 p2]. cbn [fst].
       exists p2. exact Hstep.
-    - destruct (pick_ok st s jj (c_pick ch)); [|discriminate].
+    - destruct (box_ro st jj); [discriminate|].
+      destruct (pick_ok st s jj (c_pick ch)); [|discriminate].
       exists sl, i, bi. split; [reflexivity|]. split; [discriminate|]. exists jj. split; [eauto|].
-      cbn zeta. destruct (copy_loop false i jj (c_pick ch) (filter (in_set set) (s_view sl)) st)
+      cbn zeta. destruct (copy_loop false i jj (c_pick ch) (select_view set (s_view sl)) st)
         as [st1 ps]. cbn [fst snd]. destruct (resync s st1) as [st2 p2]. cbn [fst].
       exists p2. exact Hstep. }
   destruct Hgen as (sl & i & bi & R & _ & jj & (bj & Hf) & p' & E). cbn zeta in E.
   pose proof (resolve_box _ _ _ _ _ R) as (Hsl & Hfi & Ei).
-  set (us := filter (in_set set) (s_view sl)) in *.
+  set (us := select_view set (s_view sl)) in *.
   assert (Hus : asc us /\ Forall (fun u => 0 < u) us).
   { destruct F as [_ I]. apply lookup_In in Hsl. destruct (ir_view_asc _ I _ _ Hsl) as [Hva Hvp].
-    split; [apply asc_filter; exact Hva|].
-    apply Forall_forall. intros u Hu. apply filter_In in Hu as [Hu _].
-    rewrite Forall_forall in Hvp. auto. }
+    destruct (asc_select_view set (s_view sl) Hva) as [Hsa Hsf].
+    split; [exact Hsa|].
+    rewrite Forall_forall in *. intros u Hu. apply Hvp, Hsf, Hu. }
   destruct Hus as [Hua Hup].
   destruct (snd (copy_loop mv i jj (c_pick ch) us st)) as [|p0 ps0] eqn:Eps; [discriminate|].
   inversion E as [[Est Ej Ea Eb Ep]]. subst jj.
